@@ -83,7 +83,72 @@ pub mod rust_decimal {
         pub fn is_integer(&self) -> (r: bool) ensures r == spec_is_integer(self@) { unimplemented!() }
         #[verifier::external_body]
         pub fn max(self, o: Decimal) -> (r: Decimal) ensures r@ == (if self@ >= o@ { self@ } else { o@ }) { unimplemented!() }
+        // --- the rest of the commonly used API, so that changed code that calls it still resolves; rounding
+        //     functions are uninterpreted (banker's rounding to dp places: within half a unit of that place)
+        #[verifier::external_body]
+        pub fn min(self, o: Decimal) -> (r: Decimal) ensures r@ == (if self@ <= o@ { self@ } else { o@ }) { unimplemented!() }
+        #[verifier::external_body]
+        pub fn round_dp(&self, dp: u32) -> (r: Decimal) ensures r@ == spec_round_dp_even(self@, dp) { unimplemented!() }
+        #[verifier::external_body]
+        pub fn round(&self) -> (r: Decimal) ensures r@ == spec_round_dp_even(self@, 0) { unimplemented!() }
+        #[verifier::external_body]
+        pub fn trunc(&self) -> (r: Decimal) ensures r@ == spec_trunc(self@) { unimplemented!() }
+        #[verifier::external_body]
+        pub fn floor(&self) -> (r: Decimal) ensures r@ == spec_floor(self@) { unimplemented!() }
+        #[verifier::external_body]
+        pub fn ceil(&self) -> (r: Decimal) ensures r@ == -spec_floor(-self@) { unimplemented!() }
+        #[verifier::external_body]
+        pub fn fract(&self) -> (r: Decimal) ensures r@ == self@ - spec_trunc(self@) { unimplemented!() }
+        #[verifier::external_body]
+        pub fn normalize(&self) -> (r: Decimal) ensures r@ == self@ { unimplemented!() }
+        #[verifier::external_body]
+        pub fn scale(&self) -> (r: u32) { unimplemented!() }
+        #[verifier::external_body]
+        pub fn zero() -> (r: Decimal) ensures r@ == 0real { unimplemented!() }
+        #[verifier::external_body]
+        pub fn one() -> (r: Decimal) ensures r@ == 1real { unimplemented!() }
+        #[verifier::external_body]
+        pub exec const ONE: Decimal ensures Self::ONE@ == 1real { Decimal { v: 1 } }
+        #[verifier::external_body]
+        pub exec const TWO: Decimal ensures Self::TWO@ == 2real { Decimal { v: 2 } }
+        #[verifier::external_body]
+        pub exec const TEN: Decimal ensures Self::TEN@ == 10real { Decimal { v: 10 } }
+        #[verifier::external_body]
+        pub exec const ONE_HUNDRED: Decimal ensures Self::ONE_HUNDRED@ == 100real { Decimal { v: 100 } }
+        #[verifier::external_body]
+        pub exec const MIN: Decimal ensures Self::MIN@ <= -79228162514264337593543950335real { Decimal { v: 0 } }
+        #[verifier::external_body]
+        pub fn checked_div(self, o: Decimal) -> (r: Option<Decimal>) ensures o@ == 0real ==> r is None, r is Some ==> o@ != 0real && r->Some_0@ == self@ / o@ { unimplemented!() }
+        #[verifier::external_body]
+        pub fn checked_mul(self, o: Decimal) -> (r: Option<Decimal>) ensures r is Some ==> r->Some_0@ == self@ * o@ { unimplemented!() }
+        #[verifier::external_body]
+        pub fn checked_add(self, o: Decimal) -> (r: Option<Decimal>) ensures r is Some ==> r->Some_0@ == self@ + o@ { unimplemented!() }
+        #[verifier::external_body]
+        pub fn checked_sub(self, o: Decimal) -> (r: Option<Decimal>) ensures r is Some ==> r->Some_0@ == self@ - o@ { unimplemented!() }
+        #[verifier::external_body]
+        pub fn from_str(s: &str) -> (r: Result<Decimal, Error>) { unimplemented!() }
     }
+    pub uninterp spec fn spec_round_dp_even(d: real, dp: u32) -> real;
+    pub uninterp spec fn spec_trunc(d: real) -> real;
+    pub uninterp spec fn spec_floor(d: real) -> real;
+    impl std::ops::Neg for Decimal { type Output = Decimal;
+        #[verifier::external_body] fn neg(self) -> (r: Decimal) ensures r@ == -self@ { unimplemented!() } }
+    impl vstd::std_specs::ops::NegSpecImpl for Decimal {
+        open spec fn obeys_neg_spec() -> bool { false }
+        open spec fn neg_req(self) -> bool { true }
+        uninterp spec fn neg_spec(self) -> Decimal; }
+    impl From<i32> for Decimal { #[verifier::external_body] fn from(n: i32) -> (r: Decimal) ensures r@ == n as real { unimplemented!() } }
+    impl vstd::std_specs::convert::FromSpecImpl<i32> for Decimal {
+        open spec fn obeys_from_spec() -> bool { false }
+        uninterp spec fn from_spec(v: i32) -> Decimal; }
+    impl From<u32> for Decimal { #[verifier::external_body] fn from(n: u32) -> (r: Decimal) ensures r@ == n as real { unimplemented!() } }
+    impl vstd::std_specs::convert::FromSpecImpl<u32> for Decimal {
+        open spec fn obeys_from_spec() -> bool { false }
+        uninterp spec fn from_spec(v: u32) -> Decimal; }
+    impl From<i64> for Decimal { #[verifier::external_body] fn from(n: i64) -> (r: Decimal) ensures r@ == n as real { unimplemented!() } }
+    impl vstd::std_specs::convert::FromSpecImpl<i64> for Decimal {
+        open spec fn obeys_from_spec() -> bool { false }
+        uninterp spec fn from_spec(v: i64) -> Decimal; }
 
     #[verifier::external_body]
     pub fn dec_lit(Ghost(g): Ghost<real>) -> (r: Decimal) ensures r@ == g { unimplemented!() }
